@@ -133,6 +133,17 @@ theorem specOut_nil (b : Buf) (hb : b.Inv) : specOut b [] = .ok b := by
   · rfl
   · exfalso; omega
 
+theorem filterMap_id_map_some (l : Bytes) : (l.map some).filterMap id = l := by
+  induction l with
+  | nil => rfl
+  | cons x xs ih => simp [List.filterMap_cons, ih]
+
+theorem data_prepend_empty (enc : Bytes) : (Buf.empty.prepend enc).data = .ok enc := by
+  unfold Buf.data Buf.prepend Buf.empty
+  simp only [List.append_nil]
+  have hall : (enc.map some).all Option.isSome = true := by simp [List.all_eq_true]
+  rw [if_pos hall, filterMap_id_map_some]
+
 theorem Outcome.bind_assoc {α β γ} (x : Outcome α) (f : α → Outcome β) (g : β → Outcome γ) :
     ((x >>= f) >>= g) = (x >>= fun a => f a >>= g) := by
   cases x <;> rfl
